@@ -77,17 +77,23 @@ def run(ctx):
         raise vlib.Infra("no behaviours emitted")
     total = len(behs)
 
-    def witness(b, key):
+    def overlap(b):
+        """a loop batch completes while the owner (stop / set change with drain) is stopping loops: the schedules in which
+        stop() has to wait for the loop goroutine (regression guard for KF-C46-1)"""
+        if not b[0].get("drain"):
+            return False
+        inside = False
         for s in b:
-            if key == "order" and any(not o.get("orderOK", True) for o in s.get("obs", [])):
-                return True
-            if key == "drain" and any(not d.get("ok", True) for d in s.get("drainOK", [])):
+            if s["a"] in ("StopBegin", "SyncBegin"):
+                inside = True
+            elif s["a"] in ("StopEnd", "SyncEnd"):
+                inside = False
+            elif inside and s["a"] == "Deliver" and s.get("who") == "loop":
                 return True
         return False
     if q:
         rnd = random.Random(ctx.seed)
-        keep = [next((b for b in behs if witness(b, "order")), None), next((b for b in behs if witness(b, "drain")), None)]
-        keep = [b for b in keep if b is not None]
+        keep = [b for b in behs if overlap(b)][:60]
         one = r["rp1T"].emitted + r["rp1F"].emitted       # single Alertmanager, capacity 3 > batch 2
         two = r["rpT"].emitted + r["rpF"].emitted
         behs = keep + rnd.sample(one, min(900, len(one))) + rnd.sample(two, min(800, len(two)))
